@@ -440,6 +440,36 @@ def check_elementwise(prog, rep):
                      if bb["term"]["k"] == "call" and not bb.get("cleanup")]
             if any(c.rsplit("::", 1)[-1] in conv_names and "convert" in c for c in calls):
                 steps.append(x)
+        if not steps:
+            # the loop spelling: `for v in list { out.push_back(convert(v)) }` - every way round the loop converts and
+            # appends (both calls dominate the back edges), and the loop is left only where the iterator ran out
+            import interp as _interp
+            found_loop, loop_ok = False, True
+            for x in fam:
+                info = _interp.BodyInfo(x)
+                for h, blocks in info.loops.items():
+                    conv_b = [bi for bi in blocks if x["blocks"][bi]["term"]["k"] == "call" and not x["blocks"][bi].get("cleanup")
+                              and ((x["blocks"][bi]["term"].get("resolved") or x["blocks"][bi]["term"].get("callee") or {}).get("path", "") or "").rsplit("::", 1)[-1] in conv_names
+                              and "convert" in ((x["blocks"][bi]["term"].get("resolved") or x["blocks"][bi]["term"].get("callee") or {}).get("path", "") or "")]
+                    push_b = [bi for bi in blocks if x["blocks"][bi]["term"]["k"] == "call" and not x["blocks"][bi].get("cleanup")
+                              and ((x["blocks"][bi]["term"].get("resolved") or x["blocks"][bi]["term"].get("callee") or {}).get("path", "") or "").endswith(("::push_back", "::push"))]
+                    if not conv_b or not push_b:
+                        continue
+                    found_loop = True
+                    backs = [bi for bi in blocks if h in info.succ[bi]]
+                    for bk in backs:
+                        if not any(info.dominates(c, bk) for c in conv_b) or not any(info.dominates(pb, bk) for pb in push_b):
+                            loop_ok = False
+                    # exits: only from the block that looks at the iterator's next() result (dominated by the head, before the conversion)
+                    for bi in blocks:
+                        for sx in info.succ[bi]:
+                            if sx not in blocks and any(info.dominates(c, bi) for c in conv_b):
+                                loop_ok = False     # left after an element was taken (break / early return in the body)
+            rep.ob("C06.10", entry + "|per-element-step", found_loop and loop_ok,
+                   "%s: %s" % (entry, "no per-element conversion step found (a closure or a loop calling %s and appending the result): cannot establish" % "/".join(conv_names)
+                               if not found_loop else "the loop over the stored values does not convert and append on every way round, or is left before the values ran out"), site,
+                   sample={"rule": "C06.10", "entry": entry, "form": "loop"})
+            continue
         ok_steps, n_paths = True, 0
         for x in steps:
             I = new_interp(prog)
